@@ -227,7 +227,7 @@ def run_hist(unit):
 def run_reduce(unit):
     from serif import Vector, Table
     _, alpha_name, maxn = unit
-    alpha = {"int": [1, 2, None], "float": [0.5, 1.5, None], "neg": [-1, 3, None],
+    alpha = {"int": [0, 2, None], "float": [0.0, 1.5, None], "neg": [-1, 3, None],
              # large magnitude, small spread: a numerically careless one-pass variance collapses here
              "big": [10 ** 9, 10 ** 9 + 1, 10 ** 9 + 2, None], "bigf": [1e8 + 0.25, 1e8 + 1.25, 1e8 + 2.25, None]}[alpha_name]
     agg = Agg()
